@@ -102,8 +102,9 @@ def project_font(font, layout=True):
         L, uns = otl_project.project_layout(font, gmap)
     else:
         L = {"gdef": {"cls": [], "mac": [], "sets": []}, "gsub": {"lookups": [], "fl": []}, "gpos": {"lookups": [], "fl": []}, "adv": []}
+    fv = any("FeatureVariations" in r for _w, r in uns)
     return {"n": len(order), "glyf": "glyf" in font, "cmap": [list(p) for p in sorted(pairs)], "comp": comp,
-            "math": math, "colr": colr, "L": L}, uns
+            "math": math, "colr": colr, "L": L, "fv": fv}, uns
 
 
 # ---------------------------------------------------------------------------
@@ -279,6 +280,8 @@ def _norm(x):
 def same_font(af, pf):
     a = _norm(af)
     b = _norm(pf)
+    a.pop("fv", None)
+    b.pop("fv", None)
     b["cmap"] = [[u - CP_BASE, g] for u, g in b["cmap"]]
     for f in (a, b):
         f["cmap"] = sorted(f["cmap"])
@@ -402,10 +405,41 @@ def hb_features(pf, optd):
     return {t: (1 if ("*" in feats or t in feats) else 0) for t in sorted(tags)}
 
 
-def probe_scripts(pf, optd):
-    """(script, lang) pairs to shape under: kept by the options, and whose script record cannot be emptied
-    by the feature restriction in a table that has it (named skip ScriptEmptiedFallback: the subsetter drops a
-    GPOS script left without features, after which a shaper selects another script)."""
+def layout_systems(font):
+    """{'gsub' | 'gpos': {(script tag, language tag)}} of a real font; language 'dflt' = the DefaultLangSys."""
+    out = {}
+    for tag in ("GSUB", "GPOS"):
+        ss = set()
+        t = font[tag].table if tag in font else None
+        if t is not None and t.ScriptList is not None:
+            for sr in t.ScriptList.ScriptRecord:
+                if sr.Script.DefaultLangSys is not None:
+                    ss.add((sr.ScriptTag, "dflt"))
+                for lr in sr.Script.LangSysRecord:
+                    ss.add((sr.ScriptTag, lr.LangSysTag))
+        out[tag.lower()] = ss
+    return out
+
+
+def _selected(systems, sc, la):
+    """The language system a shaper selects for (script, language): the script itself, else DFLT, dflt, latn
+    (OpenType 'DFLT' rule + HarfBuzz's fallbacks); the language system itself, else the default one."""
+    scripts = {s for s, _l in systems}
+    for cand in (sc, "DFLT", "dflt", "latn"):
+        if cand in scripts:
+            # scripts of the same family (deva/dev2/dev3 ...) are tried by the shaper in its own order
+            fam = sorted((s, l) for s, l in systems if s[:3] == cand[:3])
+            return cand, (la if (cand, la) in systems else "dflt" if (cand, "dflt") in systems else None), fam
+    return None
+
+
+def probe_scripts(pf, optd, osys, ressys):
+    """(script, lang) pairs to shape under: those for which the shaper selects the SAME language system in
+    both fonts.  Named skip ScriptPrunedFallback: the subsetter drops a script / language system left without
+    features (by the feature restriction or because none of its lookups touches a kept glyph), after which a
+    shaper selects another one for text it is told to be in that script; which system applies to a text is the
+    shaper's itemisation, not the font's behaviour.  A required feature the options drop cannot be switched
+    off in the shaper either."""
     feats, scripts = optd["layout_features"], optd["layout_scripts"]
     keepf = lambda t: "*" in feats or t in feats
     keeps = lambda s: "*" in scripts or s in scripts
@@ -415,36 +449,32 @@ def probe_scripts(pf, optd):
         for e in pf["L"][tb]["fl"]:
             if (str(e[0]), str(e[1])) not in pairs:
                 pairs.append((str(e[0]), str(e[1])))
+    if not pairs:
+        pairs = [("DFLT", "dflt")]
     out = []
     for sc, la in pairs:
-        if not keeps(sc):
-            continue
-        ok = True
+        ok = keeps(sc)
         for tb in ("gsub", "gpos"):
-            es = [e for e in pf["L"][tb]["fl"] if e[0] == sc]
-            if es and not any(keepf(e[2]) for e in es):
+            if _selected(osys[tb], sc, la) != _selected(ressys[tb], sc, la):
                 ok = False
-            # a language system left without features is dropped too: the shaper falls back to the default one
-            el = [e for e in es if e[1] == la]
-            if el and not any(keepf(e[2]) for e in el):
+            sel = _selected(osys[tb], sc, la)
+            if sel and any(e[4] and not keepf(e[2]) for e in pf["L"][tb]["fl"] if e[0] == sel[0] and e[1] == sel[1]):
                 ok = False
-            if any(e[4] and not keepf(e[2]) for e in el):
-                ok = False  # a required feature dropped by the options cannot be switched off in the shaper
         if ok:
             out.append((sc, la))
         else:
             skipped += 1
-    if not pairs:
-        out = [("DFLT", "dflt")]
     return out, skipped
 
 
-def rule_glyph_seqs(pf, rng, limit):
+def rule_glyph_seqs(pf, rng, limit, allowed):
     """Glyph sequences that trigger the rules of the ORIGINAL font: for every rule its input sequence, with and
-    without its context (one representative glyph per class/coverage position, chosen by rng)."""
+    without its context (one representative glyph per class/coverage position, chosen by rng among the glyphs
+    that a retained character maps to)."""
     seqs = []
 
     def pick(s):
+        s = [g for g in s if g in allowed]
         return rng.choice(s) if s else None
 
     for tb in ("gsub", "gpos"):
@@ -489,7 +519,7 @@ def rule_glyph_seqs(pf, rng, limit):
                     for l in st["ligs"][:6]:
                         for m in st["marks"][:3]:
                             seqs.append([l[0], m[0]])
-    seqs = [s for s in seqs if s and None not in s]
+    seqs = [s for s in seqs if s and None not in s and all(g in allowed for g in s)]
     uniq = []
     seen = set()
     for s in seqs:
@@ -501,13 +531,9 @@ def rule_glyph_seqs(pf, rng, limit):
     return uniq
 
 
-def probe_texts(pf, seqs, retained_chars, rng, nrandom):
-    """Texts over the retained characters: the rule sequences mapped back through the cmap, single characters,
-    and random short texts."""
-    by_glyph = {}
-    for u, g in pf["cmap"]:
-        if u in retained_chars and probe_char_ok(u):
-            by_glyph.setdefault(g, []).append(u)
+def probe_texts(by_glyph, seqs, rng, nrandom):
+    """Texts over the retained characters (by_glyph: glyph -> its retained, probe-able characters): the rule
+    sequences mapped back through the cmap, single characters, and random short texts."""
     chars = sorted({u for us in by_glyph.values() for u in us})
     texts = []
     for s in seqs:
@@ -549,6 +575,19 @@ def _opts(optd):
     return o
 
 
+def sfnt_bytes(data, font_number):
+    """(bytes, face index) HarfBuzz can read: WOFF / WOFF2 wrappers are removed (same tables, flavor None)."""
+    if data[:4] in (b"wOFF", b"wOF2"):
+        from fontTools.ttLib import TTFont
+
+        f = TTFont(io.BytesIO(data), fontNumber=font_number, recalcBBoxes=False, recalcTimestamp=False)
+        f.flavor = None
+        buf = io.BytesIO()
+        f.save(buf, reorderTables=None)
+        return buf.getvalue(), 0
+    return data, max(font_number, 0)
+
+
 def run_subsetter(data, font_number, req, optd):
     """The real pipeline as subset.main drives it: load_font, populate, subset, save_font."""
     from fontTools import subset
@@ -565,7 +604,7 @@ def run_subsetter(data, font_number, req, optd):
     return s, order0, buf.getvalue()
 
 
-def record_case(data, font_number, pf, req, optd, rng, kind, label, nprobe=40, nkept=24, full_result=False):
+def record_case(data, font_number, pf, req, optd, rng, kind, label, nprobe=40, nkept=24, full_result=False, esc=False):
     """Run one (font, request, options) through the real subsetter and record everything the judge needs.
     Returns (trace, skips) or raises Skip."""
     from fontTools.ttLib import TTFont
@@ -574,10 +613,19 @@ def record_case(data, font_number, pf, req, optd, rng, kind, label, nprobe=40, n
     skips = {}
     logging.disable(logging.CRITICAL)
     try:
+        # the request and the options as the specification sees them: glyph numbers and code points
+        n0 = pf["n"]
+        rg = sorted({pf_names[g] for g in req.get("glyphs", []) if g in pf_names} | {i + 1 for i in req.get("gids", []) if i < n0})
+        us = sorted(set(req.get("unicodes", [])) | {ord(c) for c in req.get("text", "")})
+        feats = optd["layout_features"]
+        head = {"kind": kind, "label": label, "req": {"unicodes": us, "glyphs": rg},
+                "opts": {"retain": bool(optd["retain_gids"]), "notdef": bool(optd["notdef_glyph"]), "recommended": bool(optd["recommended_glyphs"]),
+                         "closure": bool(optd["layout_closure"]), "feats": list(feats), "scripts": list(optd["layout_scripts"]),
+                         "ndoutline": bool(optd["notdef_outline"])}}
         try:
             s, order0, out = run_subsetter(data, font_number, req, optd)
-        except Exception as e:  # the request is valid (only existing glyphs / any code points): no result is a failure
-            return {"kind": kind, "label": label, "crash": "%s: %s" % (type(e).__name__, str(e)[:200])}, skips
+        except Exception as e:  # the judge decides whether the request was one that has an answer
+            return dict(head, crash="%s: %s" % (type(e).__name__, str(e)[:200])), skips
         name2g = {g: i + 1 for i, g in enumerate(order0)}
         n = len(order0)
 
@@ -598,16 +646,8 @@ def record_case(data, font_number, pf, req, optd, rng, kind, label, nprobe=40, n
                 if t.isUnicode() and t.format != 14:
                     for u, g in t.cmap.items():
                         rcmap.add((int(u), res.getGlyphID(g) + 1))
-        # the request as the specification sees it: glyph numbers and code points
-        rg = sorted({name2g[g] for g in req.get("glyphs", []) if g in name2g} | {i + 1 for i in req.get("gids", []) if i < n})
-        us = sorted(set(req.get("unicodes", [])) | {ord(c) for c in req.get("text", "")})
-        feats = optd["layout_features"]
         trace = {
-            "kind": kind, "label": label,
-            "req": {"unicodes": us, "glyphs": rg},
-            "opts": {"retain": bool(optd["retain_gids"]), "notdef": bool(optd["notdef_glyph"]), "recommended": bool(optd["recommended_glyphs"]),
-                     "closure": bool(optd["layout_closure"]), "feats": list(feats), "scripts": list(optd["layout_scripts"]),
-                     "ndoutline": bool(optd["notdef_outline"])},
+            **head,
             "staged": staged, "order": order, "imap": imap, "nres": nres,
             "refs": [[k, v] for k, v in sorted(refs.items())],
             "rcmap": [list(p) for p in sorted(rcmap)],
@@ -616,19 +656,37 @@ def record_case(data, font_number, pf, req, optd, rng, kind, label, nprobe=40, n
         # ---- shaping observations -------------------------------------------------
         retained_chars = {u for u, _g in rcmap}
         orig = TTFont(io.BytesIO(data), fontNumber=font_number)
+        hdata, hidx = sfnt_bytes(data, font_number)  # HarfBuzz reads plain sfnt / collections only
         locs = var_locations(orig)
-        seqs = rule_glyph_seqs(pf, rng, 3 * nprobe)
-        texts = probe_texts(pf, seqs, retained_chars, rng, max(4, nprobe // 4))[:nprobe]
+        by_glyph = {}
+        for u, g in pf["cmap"]:
+            if u in retained_chars and probe_char_ok(u):
+                by_glyph.setdefault(g, []).append(u)
+        seqs = rule_glyph_seqs(pf, rng, 3 * nprobe, set(by_glyph))
+        if not optd["layout_closure"]:
+            nprobe = min(nprobe, 12)  # each such observation costs TLC a closure computation (NoClosureEscape)
+        texts = probe_texts(by_glyph, seqs, rng, max(4, nprobe // 4))[:nprobe]
         features = hb_features(pf, optd)
-        scripts, nsk = probe_scripts(pf, optd)
+        scripts, nsk = probe_scripts(pf, optd, layout_systems(orig), layout_systems(res))
         if nsk:
-            skips["shaping under a script the feature restriction empties (ScriptEmptiedFallback)"] = nsk
+            skips["shaping under a language system the shaper selects differently after pruning (ScriptPrunedFallback)"] = nsk
         alts = [1, 2] if any(lk["ty"] == "sub3" for lk in pf["L"]["gsub"]["lookups"]) else [1]
         shapes = []
         dotted = {g for u, g in pf["cmap"] if u == 0x25CC}
         sh = {}
         for li, loc in enumerate(locs[:2]):
-            sh[li] = (hb.Shaper(data, loc, index=max(font_number, 0)), hb.Shaper(out, loc))
+            sh[li] = (hb.Shaper(hdata, loc, index=hidx), hb.Shaper(out, loc))
+        A0, B0 = sh[0]
+        if esc:
+            # domain OriginalRefersOutsideGlyphSet: a lookup of the original font outputs a glyph id the font does not have
+            skips["shaping with an original font whose lookups output glyphs it does not have"] = 1
+            sh = {}
+        elif A0.has_gdef_classes() != B0.has_gdef_classes():
+            # named shaper convention HBSynthesizedClasses: for a font without GDEF glyph classes HarfBuzz invents
+            # them from Unicode categories (OpenType: no class).  GDEF is dropped when no kept glyph has a class
+            # (kept:gdef-glyph-class-changed guards that); lookup flags then act differently in HarfBuzz only.
+            skips["shaping when only one of the fonts has GDEF glyph classes (HBSynthesizedClasses)"] = 1
+            sh = {}
         for li in sh:
             A, B = sh[li]
             for sc, la in scripts[:3]:
